@@ -32,8 +32,10 @@ SEP = z3.StringVal("/")
 
 
 def inside(base, r):
+    """r is base itself, or a normalised absolute path that equals abspath(base), lies below abspath(base) + sep, or -- when abspath(base)
+    already ends in a separator (the file-system root) -- has it as a prefix."""
     b = ABS(base)
-    return z3.Or(r == base, z3.And(NORM(r), z3.Or(r == b, z3.PrefixOf(z3.Concat(b, SEP), r))))
+    return z3.Or(r == base, z3.And(NORM(r), z3.Or(r == b, z3.PrefixOf(z3.Concat(b, SEP), r), z3.And(z3.SuffixOf(SEP, b), z3.PrefixOf(b, r)))))
 
 
 # ------------------------------------------------------ assumed os.path models --
@@ -50,6 +52,47 @@ def m_join(ex, st, args, kwargs, node):
 def m_splitdrive(ex, st, args, kwargs, node):
     p = args[0].t
     return [(st, VTuple([VStr(DRIVE(p)), VStr(TAIL(p))]))]
+
+
+def _two_strings(st, v):
+    """the two str terms of a 2-element list / tuple literal, else None"""
+    from pyvc.values import VRef
+    items = None
+    if isinstance(v, VTuple):
+        items = list(v.items) if hasattr(v, "items") else None
+    elif isinstance(v, VRef):
+        o = st.obj(v.ref)
+        if o.kind == "list" and isinstance(o.data, list):
+            items = list(o.data)
+    if items is not None and len(items) == 2 and all(isinstance(x, VStr) for x in items):
+        return items[0].t, items[1].t
+    return None
+
+
+def m_commonprefix(ex, st, args, kwargs, node):
+    """os.path.commonprefix([a, b]): the longest common *character* prefix (PY-OSPATH): r is a prefix of both, and r == a iff a is a prefix of b"""
+    ab = _two_strings(st, args[0]) if args else None
+    if ab is None:
+        return ex.havoc_call(st, "os.path.commonprefix", args, node)
+    a, b = ab
+    r = z3.String(fresh_name("commonprefix"))
+    st.assume(z3.And(z3.PrefixOf(r, a), z3.PrefixOf(r, b), z3.Implies(z3.PrefixOf(a, b), r == a), z3.Implies(z3.PrefixOf(b, a), r == b)))
+    return [(st, VStr(r))]
+
+
+def m_commonpath(ex, st, args, kwargs, node):
+    """os.path.commonpath([a, b]) for normalised absolute a, b: the longest common *component* prefix; r == a iff b == a, b lies below
+    a + sep, or a ends in a separator (root) and is a prefix of b.  May raise ValueError (mixed absolute / relative: excluded by NORM)."""
+    ab = _two_strings(st, args[0]) if args else None
+    if ab is None:
+        return ex.havoc_call(st, "os.path.commonpath", args, node)
+    a, b = ab
+    r = z3.String(fresh_name("commonpath"))
+    below = lambda x, y: z3.Or(y == x, z3.PrefixOf(z3.Concat(x, SEP), y), z3.And(z3.SuffixOf(SEP, x), z3.PrefixOf(x, y)))
+    st.assume(z3.Implies(z3.And(NORM(a), NORM(b)), z3.And(z3.PrefixOf(r, a), z3.PrefixOf(r, b), (r == a) == below(a, b), (r == b) == below(b, a))))
+    if not (ex.feasible(st.pc, z3.And(NORM(a), NORM(b))) and not ex.feasible(st.pc, z3.Not(z3.And(NORM(a), NORM(b))))):
+        ex.exc_any(st.fork(), f"{ex.loc(node)} os.path.commonpath on paths not known to be normalised absolute")
+    return [(st, VStr(r))]
 
 
 def m_isabs(ex, st, args, kwargs, node):
@@ -110,6 +153,8 @@ def install(reg):
     reg.ext_models["os.path.join"] = m_join
     reg.ext_models["os.path.splitdrive"] = m_splitdrive
     reg.ext_models["os.path.isabs"] = m_isabs
+    reg.ext_models["os.path.commonprefix"] = m_commonprefix
+    reg.ext_models["os.path.commonpath"] = m_commonpath
     reg.ext_models[("const", "os.sep")] = VStr("/")
     for k in ("os.path.exists", "os.path.lexists", "os.path.isfile", "os.path.isdir", "os.path.getsize", "os.unlink", "os.rmdir"):
         reg.ext_models[k] = fs_call(k)
@@ -373,8 +418,10 @@ def known_findings(kf, violations, repo, tier):
 
 EXTRA = [policy, native_collisions]
 TRUSTED = ["a normalised absolute path equal to abspath(base) or prefixed by abspath(base)+sep lies inside base (no symlinks are created by the reader)",
-           "os.path.abspath returns a normalised absolute path"]
-ASSUMED_MODELS = ["os.path.abspath/join/splitdrive/isabs (uninterpreted)", "open/os.makedirs/os.path.exists (effects with confinement obligation)",
+           "os.path.abspath returns a normalised absolute path",
+           "a normalised absolute path that ends in a separator is the file-system root: every normalised absolute path with that prefix lies inside it"]
+ASSUMED_MODELS = ["os.path.abspath/join/splitdrive/isabs (uninterpreted)", "os.path.commonprefix([a, b]) (character prefix; == a iff a is a prefix of b)",
+                  "os.path.commonpath([a, b]) on normalised absolute paths (== a iff b is a or lies below a)", "open/os.makedirs/os.path.exists (effects with confinement obligation)",
                   "archive_extractor._process_archive_entry (C01)", "archive_extractor._is_supported_file_cached (C07/C15)"]
 ASSUMPTIONS = ["PY-STR", "EXC-ANY", "what third-party extractors do with member *bytes* is outside this property's contracts",
                "OS-level races (symlink swaps in the temp dir by another process) are not modelled"]
